@@ -13,7 +13,8 @@ def to_smt2(ob, f=None):
             s.add(h)
         if ob.expect != 'sat':
             s.add(z3.Not(ob.goal))
-    return '(set-logic ALL)\n' + s.to_smt2()
+    logic = getattr(ob, 'logic', 'ALL')
+    return ('(set-logic %s)\n' % logic if logic else '') + s.to_smt2()
 
 
 def _z3_worker(args):
@@ -23,7 +24,7 @@ def _z3_worker(args):
         ctx = z3.Context()
         s = z3.Solver(ctx=ctx)
         s.set('timeout', timeout_ms)
-        s.from_string(smt2 if '(set-logic' in smt2 else '(set-logic ALL)\n' + smt2)
+        s.from_string(smt2)
         r = s.check()
         model = None
         if r == z3.sat and want_model:
